@@ -45,7 +45,8 @@ CHECKS["C11"] = {
     "level": "exploration",
     "claim": ("Generated requests/messages x all reply builders, compared with the reply computed from the property statement and round-tripped "
               "over the wire; ping auto-reply exercised end to end on both roles over loopback TCP, for every combination of from/pp and destinations relative to the answering endpoint (none, its complete "
-              "address, its identity only, its identity with another instance, somebody else)."),
+              "address, its identity only, its identity with another instance, somebody else). "
+              "Plus 16 goroutines building and encoding replies (success with a text / JSON resource, failure with a reason) of the same size at the same time: each comes back from the wire with its own id, destination and content."),
     "note": "Trusts the canonical form and encoding/json; ping cases use real loopback sockets with a 2 s response bound per request.",
     "technique": "property-based testing (rapid): independent field oracle + wire round-trip; enumerated end-to-end ping cases",
     "rule": ("rapid-generated request commands / messages (from/pp/to in all 8 combinations, all methods, resources of every document "
@@ -56,6 +57,7 @@ CHECKS["C11"] = {
     "assumptions": STD_ASSUMPTIONS + ["ping cases need a loopback TCP socket (127.0.0.1)"],
     "exhaustive_jobs": ["TestC11Ping"],
     "jobs": [
+        {"test": "TestC11Concurrent", "kind": "plain", "shards": (1, 4), "timeout": (300, 1500), "gomaxprocs": [16, 8, 16, 4]},
         {"test": "TestC11Replay", "kind": "plain"},
         {"test": "TestC11Ping", "kind": "plain", "timeout": (200, 300)},
         {"test": "TestC11", "kind": "rapid", "shards": 14, "checks": (3000, 50000)},
